@@ -19,6 +19,7 @@ from .. import c19_u_array  # noqa: F401  (registers units)
 from .. import c19_u_codec  # noqa: F401
 from .. import c19_u_num  # noqa: F401
 from .. import c19_u_select  # noqa: F401
+from .. import c19_u_shapes  # noqa: F401
 from .. import c19_u_sort  # noqa: F401
 from .. import c19_u_string  # noqa: F401
 from ..c19_run import UNITS
@@ -67,12 +68,12 @@ ASSUMPTIONS = [
 QUOTA = 500
 
 
-QUICK_CASES = {"pipeline": 700}  # ~70 template applications per case
+QUICK_CASES = {"pipeline": 700, "shapes": 300, "sequence": 1500}  # ~70 template applications per case
 
 
 def _plan(tier: str) -> list[tuple[str, int, int]]:
     """(unit, cases per shard, sub-shards)"""
-    heavy = {"select": 2, "sort": 2, "arith2": 2, "numstr": 2, "pipeline": 2}
+    heavy = {"select": 2, "sort": 2, "arith2": 2, "numstr": 2, "pipeline": 2, "shapes": 2}
     out = []
     for name in sorted(UNITS):
         if tier == "quick":
@@ -107,6 +108,10 @@ def floors(tier: str) -> dict[str, int]:
         "template_local_variable_applications": 10_000 * k,
         "set:local_binding_sites": 6,
         "filter_output_pipelines": 20_000 * k,
+        "shape_comparisons": 20_000 * k,
+        "set:data_shapes": 9,
+        "application_sequences": 1_000 * k,
+        "sequence_comparisons": 3_000 * k,
         "history_panel_comparisons": 4_000,
         "priming_calls_state_checked": 1_000,
         "set:primed_filters": 70,
